@@ -52,6 +52,11 @@ CLAIMED["C19"] = ("Plugins", "setup/handle as a two-state machine (rejected | ac
 CLAIMED["C18"] = ("Config", "config.Load as a TLA+ function from an abstract YAML document and the interface list to error | listener and plugin lists, shown by TLC to satisfy the declarative sentences on a product of documents; documents rendered to YAML text (several spellings), loaded by the real config.Load and the abstracted result compared by TLC; seeded text mutations for the no-panic clause",
    "341952 abstract documents in Leg A; ~1600 (quick) to ~10^5 (thorough) rendered documents with every single listen specification and plugins-section shape, plus 2-6 mutated texts each.",
    "trusted: harness/config.go (YAML rendering, abstraction of the result, interface flags), TLC; ports within 0..65535; the arbitrary-text axis is sampled, not exhaustive", "DESIGN.md section 3 C18")
+_SRV_NOTE = "trusted: harness/server.go (datagram generators/mutators, per-goroutine capture via the send hooks, watchdog with goroutine-stack inspection), the Go race detector, TLC; datagram bytes and free-running schedules are sampled"
+CLAIMED["C01"] = ("Server", "TLA+ model of the server's goroutines, locks (incl. nesting and the file RWMutex), buffer pool and lease plugins; TLC checks termination (WF), at most one reply, no lock left held, also with a panic inside the critical section; chains of real plugins loaded by LoadPlugins are fed model-shaped histories of well-formed and byte-mutated datagrams through HandleMsg4/6 (one process per chain) and every outcome is validated by TLC",
+   "Deadlock/termination/lock-release are decided for every interleaving of the bounded model; on the real code ~130 (quick) to ~600 (thorough) chains x 40-120 datagrams each, with recover(), a stack-inspecting watchdog and liveness probes. 'Every byte string' is sampled by seeded mutation, not enumerated.", _SRV_NOTE, "DESIGN.md section 3 C01/C16")
+CLAIMED["C16"] = ("Server", "same model: BufferSafe, LockDiscipline, the lease invariants and SerialEquivalent4/6 hold in every interleaving (TLC); the weakened models (lock per IA_PD, panic without unlock) fail and their counterexample schedules are imposed on the real code through the observation points; 16-goroutine runs of full chains on the -race build with concurrent lease-file rewrites are linearized by in-lock observation points and validated by RangeTrace/PrefixTrace/AllocTrace/ServerTrace under lens C16",
+   "Serial equivalence and lock discipline are exhaustive in the model (3 datagrams, nearly exhausted pools, one reload); on the real code interleavings are sampled (plus deterministic exclusion probes and the imposed schedule); data-race freedom only as far as the race detector observes these executions.", _SRV_NOTE, "DESIGN.md section 3 C01/C16")
 NOT_YET = {}
 
 def main():
